@@ -352,6 +352,7 @@ def run(ctx):
     clark_names(ctx)
     void_agreement(ctx)
     void_children_reported(ctx)
+    walk_stays_in_subtree(ctx)
     from . import wslint
     wslint.run(ctx, "R11.8")
     # R11.9: the etree walker splits every attribute key with the Clark-notation pattern; a plain name the builder stored
@@ -402,6 +403,39 @@ def void_children_reported(ctx):
                                   "produced, the children of a void element (<event-source>text) are dropped without any report" % (
                                       v, norm(consts[0].ast) if consts else ""))],
             detail={"reaching": [norm(n.ast)[:60] for n in reaching]})
+
+
+def walk_stays_in_subtree(ctx):
+    """R11.11: the walk covers the subtree of the node it was started on and nothing else: on the way up, whether the current
+    node *is* the start node is tested before its next sibling is asked for (a walker started on an inner node, or on a root
+    that has siblings, would otherwise run on into the siblings and emit end tags for ancestors it never opened)."""
+    r = ctx.r
+    r.rule("R11.11", "the ascent tests for the start node before it moves to a sibling or a parent", floor=1)
+    it = ctx.repo.func("treewalkers/base.py", "NonRecursiveTreeWalker.__iter__")
+    cfg = CFG(it.node)
+    moves = [n for n in cfg.stmt_nodes() if any(norm(c.func) in ("self.getNextSibling", "self.getParentNode") for c in node_calls(n))]
+
+    def is_start_test(n, lab):
+        if n.kind != "test":
+            return False
+        t = norm(n.ast)
+        if t in ("self.tree is currentNode", "currentNode is self.tree", "self.tree == currentNode", "currentNode == self.tree"):
+            return lab is False
+        if t in ("self.tree is not currentNode", "currentNode is not self.tree", "self.tree != currentNode", "currentNode != self.tree"):
+            return lab is True
+        return False
+    if not moves:
+        r.idiom("R11.11", False, "start-node-test-first", it.where, "the sibling / parent moves of the walker loop were not found")
+        return
+    bad = [n for n in moves if not cfg.dominated_by(n, is_start_test)]
+    has_test = any(is_start_test(n, True) or is_start_test(n, False) for n in cfg.nodes)
+    r.idiom("R11.11", not bad, "start-node-test-first", "treewalkers/base.py:%d" % (bad[0].lineno if bad else it.node.lineno),
+            "the walker's start-node test was not recognised",
+            wrong=[(bool(bad) and has_test,
+                    "`%s` can be reached without the test that the current node is the node the walk started on: a walk started on an element "
+                    "that has a following sibling (an inner node; the root element when a comment follows </html> in a DOM tree) runs on "
+                    "into the siblings and then emits end tags for ancestors that were never opened" % (norm(bad[0].ast)[:60] if bad else ""))],
+            detail={"moves": len(moves)})
 
 
 def void_agreement(ctx):
